@@ -163,6 +163,21 @@ def literal_stream(drv, n, m, version, teal_arg, cases, r, stats, mismatches):
                                        f"the verified op list (theorem wideRatio_exact) does not cover it; this input still agrees with the property"})
 
 
+def compile_same_object(n, m, version):
+    """ONE WideRatio object turned into code several times: compiled twice, and used at two places of one program.
+    -> (first text, second text, text of the two-place program) or ('err', ...)"""
+    pt = _pt()
+    try:
+        wr = build_real(n, m, "arg")
+        t1 = pt.compileTeal(pt.Return(wr), pt.Mode.Application, version=version, assembleConstants=False)
+        t2 = pt.compileTeal(pt.Return(wr), pt.Mode.Application, version=version, assembleConstants=False)
+        wr2 = build_real(n, m, "arg")
+        both = pt.compileTeal(pt.Seq(pt.Pop(wr2), pt.Return(wr2)), pt.Mode.Application, version=version, assembleConstants=False)
+        return ("ok", t1, t2, both)
+    except Exception as e:  # noqa: BLE001
+        return ("err", type(e).__name__, str(e).splitlines()[0][:200] if str(e) else "")
+
+
 def compile_real(n, m, version, leaf):
     """('ok', teal) | ('err', ExceptionClassName, message)"""
     pt = _pt()
@@ -530,6 +545,24 @@ def run(tier: str) -> int:
                             bad_shapes.add((n, m))
                         continue
                     run_cases(drv, n, m, v, real[1], cases, stats, mismatches, cross)
+                    same = compile_same_object(n, m, v)
+                    stats["same_object_programs"] += 1
+                    if same[0] != "ok" or same[1] != real[1] or same[2] != real[1]:
+                        # generating code from the expression must not change the expression
+                        what = (f"a WideRatio object with {n}/{m} factors compiles to other code the second time (version {v})" if same[0] == "ok"
+                                else f"a WideRatio object with {n}/{m} factors cannot be compiled again (version {v}): {same[1:]}")
+                        before = len(mismatches)
+                        if same[0] == "ok":
+                            run_cases(drv, n, m, v, same[2], cases[:40], stats, mismatches, cross)
+                        if len(mismatches) == before:
+                            mismatches.append({"kind": "same-object", "n": n, "m": m, "version": v, "ns": [], "ds": [], "what": what, "no_input": True,
+                                               "first": real[1], "second": same[2] if same[0] == "ok" else list(same)})
+                    elif same[3].count("divmodw") != 2:
+                        mismatches.append({"kind": "same-object", "n": n, "m": m, "version": v, "ns": [], "ds": [], "no_input": True, "teal": same[3],
+                                           "what": f"one WideRatio object used at two places of a program does not yield its code twice ({n}/{m} factors, version {v})"})
+                    else:
+                        # second occurrence executed: the program pops the first result and returns the second
+                        run_cases(drv, n, m, v, same[3], cases[:12], stats, mismatches, cross)
                     lit_cases = [c for c in cases if any(x and x & (x - 1) == 0 for x in c[1])][:lit_per_shape] + cases[:lit_per_shape]
                     literal_stream(drv, n, m, v, real[1], lit_cases, r, stats, mismatches)
                 for ns, ds in cases:
